@@ -46,8 +46,18 @@ def _case(draw):
             's': draw(st.integers(0, 12))}
 
 
+@st.composite
+def _cross_case(draw):
+    A = draw(FS.field_spec())
+    B = draw(FS.field_spec())
+    steps = draw(st.lists(st.tuples(st.sampled_from(['shift', 'shift', 'pow', 'inv', 'mix', 'pair']),
+                                    st.integers(0, 2**64), st.one_of(st.integers(-9, 12), st.integers(-2**40, 2**40))).map(list),
+                          min_size=1, max_size=4))
+    return {'mode': 'cross', 'field': A, 'field2': B, 'steps': steps}
+
+
 def strategy(tier):
-    return _case()
+    return st.one_of(_case(), _case(), _case(), _cross_case())
 
 
 class Fail(Exception):
@@ -250,6 +260,67 @@ def _shift_laws(spec, F, rf, ia, s):
         raise Fail(f'shift: ({ia}<<{s})>>{s} != {ia}')
 
 
+def _mix_laws(spec, F, ia, k):
+    """Mixing in a plain integer equals converting it first (any sign, any size), for every operator form."""
+    a = F(ia)
+    fk = F(k)
+    pairs = [('+', lambda x, y: x + y), ('-', lambda x, y: x - y), ('*', lambda x, y: x * y),
+             ('/', lambda x, y: x / y)]
+    for sym, op in pairs:
+        for left in (True, False):
+            args_mixed = (a, k) if left else (k, a)
+            args_conv = (a, fk) if left else (fk, a)
+            res = []
+            for args in (args_mixed, args_conv):
+                try:
+                    res.append(('ok', FS.to_ref(spec, op(*args))))
+                except ZeroDivisionError:
+                    res.append(('zde', None))
+            if res[0] != res[1]:
+                what = f'{ia}{sym}int({k})' if left else f'int({k}){sym}{ia}'
+                raise Fail(f'mixing in an integer differs from converting first: {what} -> {res[0]}, '
+                           f'with F({k}) -> {res[1]}')
+    for sym, ip in (('+=', lambda x, y: x.__iadd__(y)), ('-=', lambda x, y: x.__isub__(y)),
+                    ('*=', lambda x, y: x.__imul__(y)), ('/=', lambda x, y: x.__itruediv__(y))):
+        res = []
+        for y in (k, fk):
+            x = F(ia)
+            try:
+                res.append(('ok', FS.to_ref(spec, ip(x, y))))
+            except ZeroDivisionError:
+                res.append(('zde', None))
+        if res[0] != res[1]:
+            raise Fail(f'in-place {ia}{sym}int({k}) -> {res[0]}, with F({k}) -> {res[1]}')
+    if (a == k) != (a == fk) or (a != k) != (a != fk):
+        raise Fail(f'== / != with int({k}) differs from == / != with F({k})')
+
+
+def _cross_laws(case):
+    """The same operations interleaved over two different fields: no state may leak between fields."""
+    A, B = case['field'], case['field2']
+    FA, FB = FS.make(A), FS.make(B)
+    rfa, rfb = Ref(A), Ref(B)
+    for step in case['steps']:
+        op, x, y = step
+        for spec, F, rf in ((A, FA, rfa), (B, FB, rfb), (A, FA, rfa)):
+            q = FS.order(spec)
+            ix = x % q
+            if op == 'shift':
+                _shift_laws(spec, F, rf, ix, y % 13)
+            elif op == 'pow':
+                _pow_laws(spec, F, rf, ix, y)
+            elif op == 'inv':
+                a = F(ix)
+                ra = FS.to_ref(spec, a)
+                if ra != rf.zero():
+                    _eq(spec, F, 1 / a, rf.inv(ra), f'1/{ix}')
+                    _eq(spec, F, a.reciprocal(), rf.inv(ra), f'{ix}.reciprocal()')
+            elif op == 'mix':
+                _mix_laws(spec, F, ix, y)
+            else:
+                _pair_laws(spec, F, rf, ix, y % q)
+
+
 def _pow_laws(spec, F, rf, ia, e):
     a = F(ia)
     ra = FS.to_ref(spec, a)
@@ -302,7 +373,18 @@ def run_case(case):
                     return Outcome(False, f'{spec}: {e}', labels=[label, 'exh'], known=known, n=n, n_nt=nt, exhaustive=True)
                 raise
             return Outcome(True, labels=[label, 'exh'], n=n, n_nt=nt, exhaustive=True)
+        if case['mode'] == 'cross':
+            try:
+                _cross_laws(case)
+            except Fail as e:
+                known = _known_shift(spec) or _known_shift(case['field2'])
+                if known:
+                    return Outcome(False, f'{e}', labels=['cross'], known=known)
+                raise
+            return Outcome(True, labels=['cross', label], nontrivial=case['field'] != case['field2'])
         ia, ib, ic = case['a'], case['b'], case['c']
+        _mix_laws(spec, F, ia, case['k'])
+        _mix_laws(spec, F, ib, -abs(case['k']) - spec['p'])
         _pair_laws(spec, F, rf, ia, ib)
         _pair_laws(spec, F, rf, ic, ia)
         _triple(spec, F, rf, ia, ib, ic)
